@@ -25,12 +25,14 @@ func init() {
 			{Fn: "H_mw", Params: n(4), Tier: "quick", Reach: []string{"end"}},
 			{Fn: "H_mw", Params: n(5), Tier: "thorough", Reach: []string{"end"}},
 		},
-		Rule: rule + "; H_step is the inductive step from an arbitrary state satisfying the representation invariant (covers histories of any length), H_hist enumerates all operation sequences of length k from the initial state with symbolic status codes/payloads",
+		Rule:        rule + "; H_step is the inductive step from an arbitrary state satisfying the representation invariant (covers histories of any length), H_hist enumerates all operation sequences of length k from the initial state with symbolic status codes/payloads",
 		Assumptions: []string{"status codes in [100,999] (net/http's own precondition)", "recorder commits on first Write like net/http", "cookie() is modelled by its effect on the live header map (Header().Set), http.SetCookie's formatting is not executed"},
 		Outside:     []string{"SendFile, Hijack, Flush, response formatter closures", "script-level argument conversion of the ResponseWriter*Method wrappers", "histories longer than 4 outside the inductive argument"},
 	})
 
-	c03 := func(fn string, p map[string]int) RunDef { return RunDef{Fn: fn, Params: p, Tier: "quick", Reach: []string{"end"}} }
+	c03 := func(fn string, p map[string]int) RunDef {
+		return RunDef{Fn: fn, Params: p, Tier: "quick", Reach: []string{"end"}}
+	}
 	reg(Check{
 		ID:  "C03",
 		Pkg: "verif/harness/c03",
@@ -47,6 +49,22 @@ func init() {
 		Rule:        rule + "; operand payloads are full 64-bit ints / full IEEE doubles (FP theory), strings are symbolic byte tuples of the stated length; templates are parsed by the real lexer+parser on every path",
 		Assumptions: []string{"string comparison domain: non-numeric strings (leading byte >= 'A'); NaN ordering excluded", "truthiness of the string \"0\" is only checked for context independence (docs are silent on its value)"},
 		Outside:     []string{"casts (int)/(float)/(string)/(bool): need package std, whose import drags database drivers into the SSA program", "string<->number juggling beyond the concrete pool", "** and . with symbolic numbers (number formatting / math.Pow are not encoded): concrete boundary pools there", "strings longer than 2 bytes"},
+	})
+
+	c17 := func(fn string, p map[string]int) RunDef { return RunDef{Fn: fn, Params: p, Tier: "quick", Reach: []string{"end"}} }
+	reg(Check{
+		ID:  "C17",
+		Pkg: "verif/harness/c17",
+		Runs: []RunDef{
+			c17("H_int_to_int", nil), c17("H_int_to_sized", nil), c17("H_int_to_bool", nil), c17("H_float_to", nil), c17("H_bool_to", nil),
+			c17("H_string_to_string", n(0)), c17("H_string_to_string", n(1)), c17("H_string_to_string", n(2)), c17("H_string_to_string", n(3)),
+			c17("H_reflect_int", nil), c17("H_reflect_int64", nil), c17("H_reflect_float", nil), c17("H_reflect_bool", nil),
+			c17("H_reflect_str", n(0)), c17("H_reflect_str", n(1)), c17("H_reflect_str", n(2)), c17("H_reflect_str", n(3)),
+			c17("H_reflect_arity", nil), c17("H_reflect_nocrash", nil),
+		},
+		Rule:        rule + "; script-side payloads are full-width symbolic ints/doubles/bools and fully symbolic byte strings (incl. non-UTF-8) of the stated length; the reflective path is driven through a real parsed script call",
+		Assumptions: []string{"reflect is modelled at contract level (TypeOf/ValueOf/Kind/NumIn/In/Call with the documented assignability panic/Convert/Int/Float/String/Bool)", "runtime.Caller returns a fixed location"},
+		Outside:     []string{"convertTypeAlias (reflection on named types) and struct methods via reflect_class.go", "arity 3, 64 KiB strings, std/system generated wrappers (all funnel through ConvertFromIndex)"},
 	})
 
 	reg(Check{
